@@ -70,7 +70,7 @@ MatchFormat(w) ==
   THEN CHOOSE i \in 1..NF : Matches(Formats[i], w) /\ \A j \in 1..(i - 1) : ~Matches(Formats[j], w)
   ELSE 0
 
-VOP3bOps == {281, 282, 283, 284, 285, 286, 480, 481}    \* Disassembler.isVOP3bOpcode
+VOP3bOps == {281, 282, 283, 284, 285, 286, 480, 481, 488}    \* Disassembler.isVOP3bOpcode
 
 \* ------------------------------------------------------------- operands
 \* An operand is <<kind, a, b, c>>:
@@ -196,12 +196,13 @@ DecSMEM(row, op, w0, w1) ==
                [NoOps EXCEPT !.ba = ba, !.da = W(da, SMEMDataW(op)), !.of = of],
                [NoMods EXCEPT !.glc = Bit(w0, 16), !.imm = imm])
 
-DecVOP1(row, op, w0, w1, have8) ==
+DecVOP1(row, op, w0, w1, have8, cdna3) ==
   LET s0 == Opnd(Bits(w0, 0, 8))
       vd == Bits(w0, 17, 24)
       d  == IF op = 2 THEN Opnd(vd) ELSE VReg(vd, 1)          \* v_readfirstlane_b32 writes an SGPR
-      ns == IF row.s0w = 64 \/ op = 15 THEN 2 ELSE 1
-      nd == IF row.dw = 64 \/ op \in {4, 16} THEN 2 ELSE 1
+      mov64 == cdna3 /\ op = 56                               \* CDNA3: opcode 56 is v_mov_b64
+      ns == IF row.s0w = 64 \/ op = 15 \/ mov64 THEN 2 ELSE 1
+      nd == IF row.dw = 64 \/ op \in {4, 16} \/ mov64 THEN 2 ELSE 1
   IN IF AnyBad({s0, d}) THEN Und("operand")                  \* includes SDWA (249) / DPP (250): unsupported
      ELSE LitInst("vop1", op, row, [NoOps EXCEPT !.s0 = W(s0, ns), !.d = W(d, nd)], NoMods,
                   IsLit(s0), have8, w1)
@@ -209,7 +210,8 @@ DecVOP1(row, op, w0, w1, have8) ==
 DecVOPC(row, op, w0, w1, have8) ==
   LET s0 == Opnd(Bits(w0, 0, 8))
   IN IF IsBad(s0) THEN Und("operand")
-     ELSE LitInst("vopc", op, row, [NoOps EXCEPT !.s0 = s0, !.s1 = VReg(Bits(w0, 9, 16), 1)], NoMods,
+     ELSE LitInst("vopc", op, row, [NoOps EXCEPT !.s0 = W(s0, Wd(row.s0w)),      \* 64-bit compares read pairs
+                                                 !.s1 = VReg(Bits(w0, 9, 16), Wd(row.s1w))], NoMods,
                   IsLit(s0), have8, w1)
 
 VOP2KOps == {23, 24, 36, 37}       \* v_madmk / v_madak (f32, f16): a literal K follows
@@ -324,7 +326,7 @@ Decode(b, cdna3) ==
                    [] fn = "sopp"  -> DecSOPP(row, op, w0)
                    [] fn = "smem"  -> DecSMEM(row, op, w0, w1)
                    [] fn = "vop2"  -> DecVOP2(row, op, w0, w1, have8)
-                   [] fn = "vop1"  -> DecVOP1(row, op, w0, w1, have8)
+                   [] fn = "vop1"  -> DecVOP1(row, op, w0, w1, have8, cdna3)
                    [] fn = "vopc"  -> DecVOPC(row, op, w0, w1, have8)
                    [] fn = "vop3a" -> DecVOP3a(row, op, w0, w1)
                    [] fn = "vop3b" -> DecVOP3b(row, op, w0, w1)
